@@ -11,6 +11,7 @@ package agent
 //   s4: open, data up, TARGET closes (exit sends FIN + CLOSE)
 //   s5: open, data up, the ingress PEER DISCONNECTS
 //   s6: UDP_OPEN relayed, ingress peer disconnects        s7: ICMP_OPEN relayed, peer disconnects
+//   s8: open whose outbound dial is gated (in flight), ingress peer disconnects, dial completes
 // Every ordered pair of scripts x every interleaving x {colliding, distinct} stream ids x topology.
 // Oracle: (always) both relay indices have the same size; (after both scripts ended and the mesh is
 // quiescent) the transit's tcp/udp/icmp relay tables are empty on both indices, the exit / forward
@@ -40,6 +41,7 @@ var c17Scripts = map[string][]string{
 	"s5": {"O", "A", "D"},
 	"s6": {"Uo", "D"},
 	"s7": {"Io", "D"},
+	"s8": {"Og", "D", "G"}, // open whose outbound dial is still in flight when the peer disconnects; then the dial completes
 }
 
 type c17Scenario struct {
@@ -66,6 +68,9 @@ type c17World struct {
 	x     int
 	via   int
 	baseG int
+	gated int
+	gate  [2]chan struct{}
+	gtgt  [2]*nsTarget
 	disc  [2]bool
 	pendingViol [][2]string
 }
@@ -82,7 +87,7 @@ func c17Build(sc c17Scenario) (*c17World, error) {
 		if i == x {
 			cfg.Exit.Enabled = true
 			cfg.Exit.Routes = []string{"10.0.0.0/8"}
-			cfg.Forward.Endpoints = []config.ForwardEndpoint{{Key: "k0", Target: "10.9.0.1:7001"}, {Key: "k1", Target: "10.9.0.2:7002"}, {Key: "dead", Target: "10.9.0.9:7009"}}
+			cfg.Forward.Endpoints = []config.ForwardEndpoint{{Key: "k0", Target: "10.9.0.1:7001"}, {Key: "k1", Target: "10.9.0.2:7002"}, {Key: "dead", Target: "10.9.0.9:7009"}, {Key: "g0", Target: "10.9.0.7:7007"}, {Key: "g1", Target: "10.9.0.8:7008"}}
 		}
 	})
 	if err != nil {
@@ -99,12 +104,30 @@ func c17Build(sc c17Scenario) (*c17World, error) {
 	nt.settle(w.eps[0], w.eps[1])
 	w.tgt[0] = nsNewTarget("10.9.0.1:7001")
 	w.tgt[1] = nsNewTarget("10.9.0.2:7002")
+	for i := 0; i < 2; i++ {
+		i := i
+		w.gate[i] = make(chan struct{})
+		addr := fmt.Sprintf("10.9.0.%d:%d", 7+i, 7007+i)
+		w.gtgt[i] = nsNewTarget(addr)
+		inner := vnetHandler(addr)
+		vnet.Register(addr, func(network, a string) (net.Conn, error) {
+			<-w.gate[i] // the dial stays in flight until the harness releases it
+			return inner(network, a)
+		})
+	}
 	w.baseG = runtime.NumGoroutine()
 	return w, nil
 }
 
 func (w *c17World) close() {
-	for _, t := range w.tgt {
+	for i := range w.gate {
+		select {
+		case <-w.gate[i]:
+		default:
+			close(w.gate[i])
+		}
+	}
+	for _, t := range []*nsTarget{w.tgt[0], w.tgt[1], w.gtgt[0], w.gtgt[1]} {
 		t.close()
 		for i := 0; i < t.nconns(); i++ {
 			t.conn(i).Close()
@@ -115,7 +138,7 @@ func (w *c17World) close() {
 
 func (w *c17World) liveExitConns() int {
 	c := 0
-	for _, t := range w.tgt {
+	for _, t := range []*nsTarget{w.tgt[0], w.tgt[1], w.gtgt[0], w.gtgt[1]} {
 		for i := 0; i < t.nconns(); i++ {
 			if !t.conn(i).PeerClosed() {
 				c++
@@ -128,7 +151,7 @@ func (w *c17World) liveExitConns() int {
 func (w *c17World) barrier() bool {
 	ok := nsWait(func() bool {
 		w.nt.settle(w.eps[0], w.eps[1])
-		return runtime.NumGoroutine() <= w.baseG+w.liveExitConns() && w.nt.quiescent()
+		return runtime.NumGoroutine() <= w.baseG+w.liveExitConns()+w.gated && w.nt.quiescent()
 	})
 	w.nt.settle(w.eps[0], w.eps[1])
 	return ok
@@ -164,7 +187,7 @@ func (w *c17World) step(sc c17Scenario, i int, op string) string {
 	if sc.Topology == "transit" {
 		remaining = []identity.AgentID{w.nt.ids[w.x]}
 	}
-	if w.disc[i] {
+	if w.disc[i] && op != "G" {
 		return ""
 	}
 	switch op {
@@ -189,6 +212,34 @@ func (w *c17World) step(sc c17Scenario, i int, op string) string {
 			return w.answers() > before || w.tun[i].Answered
 		}) {
 			return "harness: exit never answered an open"
+		}
+	case "Og":
+		if sc.Kind == "tcp" {
+			w.tun[i] = ep.openIP(w.via, sid, uint64(100+i), remaining, net.ParseIP(fmt.Sprintf("10.9.0.%d", 7+i)), uint16(7007+i))
+		} else {
+			w.tun[i] = ep.openDomain(w.via, sid, uint64(100+i), remaining, protocol.ForwardStreamPrefix+fmt.Sprintf("g%d", i), 0)
+		}
+		w.nt.settle(w.eps[0], w.eps[1])
+		// the exit's open goroutine is now parked in the dial: one extra goroutine until the gate opens
+		w.gated++
+		return ""
+	case "G":
+		select {
+		case <-w.gate[i]:
+		default:
+			answersBefore := w.answers()
+			close(w.gate[i])
+			w.gated--
+			// the exit's open goroutine now completes the dial and then either answers (ACK reaches
+			// the ingress) or, if its peer is gone, fails to send the ACK and closes the new
+			// connection: wait for one of the two (state barrier, no timing)
+			if !nsWait(func() bool {
+				w.nt.settle(w.eps[0], w.eps[1])
+				c := w.gtgt[i].conn(0)
+				return c != nil && (c.PeerClosed() || w.answers() > answersBefore || (w.tun[i] != nil && w.tun[i].Answered))
+			}) {
+				return "harness: gated open neither answered nor closed after the dial completed"
+			}
 		}
 	case "A":
 		if w.tun[i] != nil && w.tun[i].Key != nil {
@@ -382,7 +433,7 @@ func TestVerif_C17(t *testing.T) {
 		}
 		return
 	}
-	names := []string{"s1", "s2", "s3", "s4", "s5", "s6", "s7"}
+	names := []string{"s1", "s2", "s3", "s4", "s5", "s6", "s7", "s8"}
 	for _, topo := range []string{"transit", "shared"} {
 		kinds := []string{"tcp", "forward"}
 		for _, kind := range kinds {
@@ -419,4 +470,9 @@ func TestVerif_C17(t *testing.T) {
 	if err := r.Finish(); err != nil {
 		t.Fatal(err)
 	}
+}
+
+// vnetHandler returns the handler currently registered for addr (the plain in-memory target).
+func vnetHandler(addr string) func(network, a string) (net.Conn, error) {
+	return vnet.Handler(addr)
 }
